@@ -105,7 +105,12 @@ fn finding_matches(f: &Value, v: &Violation) -> bool {
             for part in k.split('.') {
                 cur = &cur[part];
             }
-            if cur != want {
+            // an array in the finding means "any of these values"
+            let ok = match want.as_array() {
+                Some(alts) if !cur.is_array() => alts.iter().any(|a| a == cur),
+                _ => cur == want,
+            };
+            if !ok {
                 return false;
             }
         }
@@ -167,7 +172,7 @@ fn run_pass(exe: &Path, a: &CheckArgs, first: u64, n: u64) -> Pass {
         });
     }
     let watchdog = Duration::from_secs(match a.tier {
-        Tier::Quick => 300,
+        Tier::Quick => 200,
         Tier::Thorough => 900,
     });
     // a reference run is cut by its own wall guard after 8 s (quick) / 30 s (thorough); if it
@@ -180,6 +185,7 @@ fn run_pass(exe: &Path, a: &CheckArgs, first: u64, n: u64) -> Pass {
     let mut dead_scenarios: Vec<(u64, String)> = vec![];
     let mut dead_in_reference: Vec<(u64, String)> = vec![];
     let mut kept: std::collections::HashMap<(String, String), u32> = std::collections::HashMap::new();
+    let mut slowest: Vec<(f64, u64)> = vec![];
     #[allow(unused_assignments)]
     let mut violations_seen = 0u64;
     let mut active = jobs;
@@ -196,6 +202,11 @@ fn run_pass(exe: &Path, a: &CheckArgs, first: u64, n: u64) -> Pass {
                 }
             }
             Ok(Msg::Report(s, mut r)) => {
+                if let Some((i, t)) = workers[s].current {
+                    slowest.push((t.elapsed().as_secs_f64(), i));
+                    slowest.sort_by(|a, b| b.0.partial_cmp(&a.0).unwrap());
+                    slowest.truncate(5);
+                }
                 workers[s].current = None;
                 workers[s].next_start = r.idx + jobs as u64;
                 // bound memory: keep the replay data of the first few violations of each class only
@@ -263,6 +274,9 @@ fn run_pass(exe: &Path, a: &CheckArgs, first: u64, n: u64) -> Pass {
             Err(mpsc::RecvTimeoutError::Disconnected) => break,
         }
     }
+    if std::env::var("VERIF_TRACE").is_ok() {
+        eprintln!("slowest scenarios (seconds in their last phase, index): {slowest:?}");
+    }
     Pass {
         reports,
         dead_scenarios,
@@ -276,7 +290,7 @@ pub fn run_check(fam: &dyn Family, a: &CheckArgs) -> i32 {
     let total = a.count_override.unwrap_or_else(|| fam.count(&a.prop, a.tier));
     let jobs = a.jobs.max(1).min(total.max(1) as usize);
     let watchdog = Duration::from_secs(match a.tier {
-        Tier::Quick => 300,
+        Tier::Quick => 200,
         Tier::Thorough => 900,
     });
     let Pass {
@@ -300,7 +314,12 @@ pub fn run_check(fam: &dyn Family, a: &CheckArgs) -> i32 {
     // scenarios in which a worker died: re-execute alone, in a fresh process
     let mut harness_errors: Vec<String> = vec![];
     let mut violations: Vec<Violation> = vec![];
-    for (i, how) in &dead_scenarios {
+    for (n_dead, (i, how)) in dead_scenarios.iter().enumerate() {
+        if n_dead >= 2 {
+            // each confirmation may take twice the watchdog: confirm the first two only
+            harness_errors.push(format!("scenario {i}: worker died ({how}); not re-run (two dead scenarios were already re-run)"));
+            continue;
+        }
         let exe_for = if *i >= SECOND_OFFSET { a.second.as_ref().map(|x| x.0.clone()).unwrap_or(exe.clone()) } else { exe.clone() };
         let st = output_with_timeout(
             Command::new(&exe_for)
@@ -387,8 +406,10 @@ pub fn run_check(fam: &dyn Family, a: &CheckArgs) -> i32 {
             fresh.push(v);
         }
     }
-    for (id, n) in &known_hits {
-        let f = known.iter().find(|f| f["id"].as_str() == Some(id)).unwrap();
+    // every listed (status = known) finding of this property is announced, with the number of times this run hit it
+    for f in known.iter().filter(|f| f["status"].as_str() == Some("known") && f["property"].as_str() == Some(a.prop.as_str())) {
+        let id = f["id"].as_str().unwrap_or("?");
+        let n = known_hits.get(id).copied().unwrap_or(0);
         println!(
             "KNOWN-FINDING: property={} {} (id {}, hit {} times in this run)",
             a.prop,
